@@ -5,6 +5,16 @@ from common import Rng
 
 import pytrs
 
+
+def safely(rep, what, f, *a):
+    """run one oracle check; an exception escaping the library is itself a failing input for the observables"""
+    try:
+        return f(rep, *a)
+    except Exception as e:  # noqa
+        rep.violation('failing-input', {'check': what, 'args': [str(x)[:300] for x in a], 'why': f'raised {type(e).__name__}: {e}'})
+        return None
+
+
 RULE = ("sequences of 1-6 elements (lot | lot range | lot with acreage | aliquot-of-lot(s) | aliquot chain | ALL last) "
         "joined by ', ' / '; ' / ',\\n' x suppress_lot_divs x depth settings; compared with the concatenation of the "
         "single-element parses obtained from the implementation itself; non-trivial = at least 2 elements; distinct by text")
@@ -128,7 +138,7 @@ def run(ctx):
         elems = rand_elems(r)
         sep = r.choice(SEPS)
         cfg = cfg_for(r)
-        check(rep, elems, sep, cfg)
+        safely(rep, 'compose', check, elems, sep, cfg)
         text = sep.join(elems)
         if len(elems) >= 2:
             rep.nontrivial(text + '|' + cfg)
